@@ -247,6 +247,8 @@ def run(R, env):
                 how = None
                 if ix[0] == "agg" and ix[1].endswith("RangeFull"):
                     how = "total(full range)"
+                elif ix[0] == "payload" and shared.unwrap_payload(ix)[0] == "call" and shared.unwrap_payload(ix)[1].endswith("Iterator::position") and norm(shared.unwrap_payload(ix)[2][0]) == norm(coll):
+                    how = "I8(index found by position() over the same collection)"
                 else:
                     w = c.assume_bool(lambda x, coll=coll: x[0] == "call" and x[1] in ("core::slice::is_empty", "std::vec::Vec::is_empty") and norm(x[2][0]) == norm(coll), True).settle()
                     small = const_int(ix) == 0 or (ix[0] == "agg" and ix[1].endswith("RangeFrom") and const_int(shared.agg_field(ix, "start")) in (0, 1))
